@@ -335,7 +335,7 @@ class Builder:
         self.steps.append(Step("rc", "recompute", "OK", copy.deepcopy(self.a)))
 
     # -- walks
-    def walk_op(self, si=None, mode="mixed", incl=None, delete_set=None):
+    def walk_op(self, si=None, mode="mixed", incl=None, delete_set=None, c_safe=False):
         """A walk over section si with actions chosen while simulating the abstract walk.
         mode: 'read' | 'mixed' | 'delete'. Returns nothing; appends a step."""
         rng, a = self.rng, self.a
@@ -364,6 +364,9 @@ class Builder:
             choice = "read"
             if mode == "delete":
                 choice = "X" if (delete_set is not None and id(rec) in delete_set) else "read"
+            elif mode == "mixed" and not is_opt and c_safe:
+                # only what the C table offers, within its documented preconditions
+                choice = rng.choice(["read", "T", "M", "M", "X", "Merr"] + (["A", "A"] if rec.t in (G.T_A, G.T_AAAA) else []))
             elif mode == "mixed" and not is_opt:
                 choice = rng.choice(["read", "read", "T", "A", "M", "M", "X", "V", "Merr"])
             elif mode == "mixed" and is_opt:
@@ -393,8 +396,12 @@ class Builder:
                 if rng.random() < 0.1:
                     nm = []
                 rec.name = nm
-                acts += ["M" + hx(G.wire_name(nm)), "n", "o"]
-                obs += ["M=OK", "n=" + hx(name_text(nm)), None]
+                if c_safe:
+                    acts += ["M" + hx(G.wire_name(nm)), "n"]
+                    obs += ["M=OK", "n=" + hx(name_text(nm))]
+                else:
+                    acts += ["M" + hx(G.wire_name(nm)), "n", "o"]
+                    obs += ["M=OK", "n=" + hx(name_text(nm)), None]
             elif choice == "Merr":
                 bad = rng.choice([b"\x03ab", b"\x40" + b"a" * 64 + b"\0", b"\x03a.b\0", b"\x03a\x01b\0", b"\xc0\x0c", b"", G.wire_name(G.name_of_wire_len(255))[:-1] + b"\x01a\0"])
                 acts += ["M" + hx(bad), "n"]
@@ -402,9 +409,13 @@ class Builder:
             elif choice == "V":
                 acts += ["V", "n"]
                 obs += ["V=OK", "n=" + hx(name_text(rec.name))]
-            if choice == "X":
+            if choice == "X" and c_safe:
+                acts += ["X", "X"]
+                obs += ["X=OK", "X=ERR:VoidRecord"]
+            elif choice == "X":
                 acts += ["X", "X", "o"]
                 obs += ["X=OK", "X=ERR:VoidRecord", "o=-/-"]
+            if choice == "X":
                 deleted_tags.append(id(rec))
                 recs.pop(pos)
                 pos = 0  # a tombstoned cursor restarts from the section start
